@@ -65,6 +65,11 @@ func ZZ_C12_Expiry() {
 	probe := zzTime("probe")
 	// the clock value MaxInt64 is the cache's own "unreachable" sentinel; probes stay below it
 	vAssume(probe < int64(^uint64(0)>>1))
+	cx := cfg.expC // custom calculator: it must be consulted once per operation, with the entry being written or read
+	if cx != nil {
+		vAssert(cx.nCreate == 1 && cx.nUpdate == 0 && cx.nRead == 0, "c12.calculator.create_consulted_once")
+		vAssert(cx.lastKey == 1 && cx.lastVal == 10 && cx.lastSnap == t0, "c12.calculator.create_sees_the_new_entry")
+	}
 	if op == 0 {
 		vAssume(probe >= t0)
 		zzCheckDeadline(env, 1, t0, dC, probe, "c12.create")
@@ -90,6 +95,10 @@ func ZZ_C12_Expiry() {
 	switch op {
 	case 1:
 		c.Set(1, 11)
+		if cx != nil {
+			vAssert(cx.nCreate == 1 && cx.nUpdate == 1 && cx.nRead == 0, "c12.calculator.update_consulted_once")
+			vAssert(cx.lastKey == 1 && cx.lastVal == 11 && cx.lastOld == 10 && cx.lastSnap == t1, "c12.calculator.update_sees_new_entry_and_old_value")
+		}
 		switch cfg.expiry {
 		case zzExpCreating:
 			zzCheckDeadline(env, 1, t0, dC, probe, "c12.update.creation_only_keeps")
@@ -99,6 +108,10 @@ func ZZ_C12_Expiry() {
 	case 2:
 		v, ok := c.GetIfPresent(1)
 		vAssert(ok && v == 10, "c12.read.hit")
+		if cx != nil {
+			vAssert(cx.nCreate == 1 && cx.nUpdate == 0 && cx.nRead == 1, "c12.calculator.read_consulted_once")
+			vAssert(cx.lastKey == 1 && cx.lastVal == 10 && cx.lastSnap == t1, "c12.calculator.read_sees_the_entry")
+		}
 		switch cfg.expiry {
 		case zzExpCreating, zzExpWriting:
 			zzCheckDeadline(env, 1, t0, dC, probe, "c12.read.keeps")
